@@ -12,11 +12,11 @@ CHECKS = {
     "C18": dict(
         pkg="c18", race=False,
         technique="lock-step reference-model monitor + reset-twin relational monitor over seeded op sequences",
-        level_text="For the exponential average the warm-up mean is checked after Updates as well. MinimumMeasurement.Update with a positive result is modelled as one more sample. Reset overlapping Add (300 rounds per case; free-running, or both queued behind an identity Update that holds the instance lock and yields): afterwards the instance equals, bit for bit, a new instance with or without that sample. Every Add/Get/Reset/Update result of the real primitives is compared online with an independent reference fold "
+        level_text="The moving variance is compared with a model composed of two public moving averages (squared deviation of each sample from the running mean of the samples before it). For the exponential average the warm-up mean is checked after Updates as well. MinimumMeasurement.Update with a positive result is modelled as one more sample. Reset overlapping Add (300 rounds per case; free-running, or both queued behind an identity Update that holds the instance lock and yields): afterwards the instance equals, bit for bit, a new instance with or without that sample. Every Add/Get/Reset/Update result of the real primitives is compared online with an independent reference fold "
                    "(minimum, latest, warm-up mean, hull, variance>=0), reset twins are compared bit-for-bit, the flag is checked against "
                    "observed value changes, and window folds against a reference and a permutation - over thousands (quick) to hundreds of "
                    "thousands (thorough) of seeded sequences. Exploration: it shows the property on the sequences run, not for all.", shards=(4, 16), timeout_s=(300, 1800),
-        require=["warmup_mean_checks_after_an_update", "minimum_updates_modelled_as_a_sample", "concurrent_reset_rounds", "adds_changing_value", "adds_not_changing_value", "reset_twin_pairs", "window_folds", "hull_checks",
+        require=["variance_model_checks", "warmup_mean_checks_after_an_update", "minimum_updates_modelled_as_a_sample", "concurrent_reset_rounds", "adds_changing_value", "adds_not_changing_value", "reset_twin_pairs", "window_folds", "hull_checks",
                  "warmup_mean_checks", "concurrent_minimum_rounds", "variance_alpha_twin_pairs", "concurrent_single_update_rounds"],
         rule="PRNG op sequences (add/get/update/reset) over samples in [1,2^50] for each primitive (minimum, single, "
              "exp-average, simple EMA, moving variance, windowless percentile) run in lock-step with a reference fold; "
@@ -59,12 +59,12 @@ CHECKS = {
     "C07": dict(
         pkg="c07", race=False, shard_env={"GO_CONCURRENCY_LIMIT_LOG10ROOT_PRE_COMPUTE": "4096", "GO_CONCURRENCY_LIMIT_SQRT_PRE_COMPUTE": "4096"}, shards=(4, 16), timeout_s=(300, 1800),
         technique="before/after monitor on app-limited samples + bounded-progress (stuck-detection) monitor on healthy saturated runs from seeded reachable states",
-        level_text="One Vegas recovery run in five carries a caller-supplied threshold (0 / -1): growth by the default increase step, bound adjusted. A quarter of the non-AIMD recovery runs use a debug-enabled logger; one AIMD run in six asks for the default increment (0 / -1 => 1). Gradient recovery runs with probing disabled last 2100 samples and must never collapse at a probe. From PRNG-generated reachable states (valid config + prior history with drops, zero and huge RTTs): app-limited non-drop samples "
+        level_text="Concurrent healthy rounds: M identical healthy samples delivered to one Vegas / Gradient / Gradient2 limit from 2-7 goroutines next to a goroutine polling EstimatedLimit() end at the estimate a twin reaches sequentially. One Vegas recovery run in five carries a caller-supplied threshold (0 / -1): growth by the default increase step, bound adjusted. A quarter of the non-AIMD recovery runs use a debug-enabled logger; one AIMD run in six asks for the default increment (0 / -1 => 1). Gradient recovery runs with probing disabled last 2100 samples and must never collapse at a probe. From PRNG-generated reachable states (valid config + prior history with drops, zero and huge RTTs): app-limited non-drop samples "
                    "(2*inFlight < reported estimate; AIMD inFlight < limit, including the edge value) must not raise the estimate; healthy saturated "
                    "runs at the baseline RTT must add the increment on every sample (AIMD), grow by at least the queue allowance per non-probe sample "
                    "(Gradient), or bring the reported estimate to ceiling-1 within an analytic sample bound (Vegas, Gradient2); a run that stopped "
                    "rising below the ceiling is a violation, one still rising at the cap is inconclusive. Exploration.",
-        require=["vegas_recovery_runs_with_a_caller_supplied_threshold", "recovery_runs_with_a_debug_logger", "aimd_recovery_runs_with_the_default_increment", "gradient_recovery_runs_with_probing_disabled", "app_limited_samples", "app_limited_samples_at_the_edge", "healthy_samples", "recovered/aimd", "recovered/vegas",
+        require=["concurrent_healthy_rounds", "vegas_recovery_runs_with_a_caller_supplied_threshold", "recovery_runs_with_a_debug_logger", "aimd_recovery_runs_with_the_default_increment", "gradient_recovery_runs_with_probing_disabled", "app_limited_samples", "app_limited_samples_at_the_edge", "healthy_samples", "recovered/aimd", "recovered/vegas",
                  "recovered/gradient", "recovered/gradient2", "gradient_probes_observed", "concurrent_saturated_rounds"],
         rule="case = (algorithm, valid config, random prefix of 0-150 hostile/drop-heavy/benign samples) then app-limited samples or a healthy "
              "saturated run; non-trivial = run started below ceiling-1 (always for app-limited cases); distinct = distinct (config, start estimate, history length).",
@@ -100,7 +100,7 @@ CHECKS = {
     "C16": dict(
         pkg="c16", race=False, shards=(4, 16), timeout_s=(300, 1800),
         technique="per-operation monitor: recording change listeners vs EstimatedLimit() before/after every OnSample/SetLimit",
-        level_text="Gradient / Gradient2 also built below their own minimum; explicit sets to 0. Concurrent variant: in half of the cases 2-8 listeners are registered at the same moment from different goroutines; if any listener heard of a change, all did. For AIMD/Vegas/Gradient/Gradient2/Settable/Fixed and a scripted recorder, bare and under Windowed, Traced and Traced(Windowed): "
+        level_text="Explicit sets to negative values. Gradient / Gradient2 also built below their own minimum; explicit sets to 0. Concurrent variant: in half of the cases 2-8 listeners are registered at the same moment from different goroutines; if any listener heard of a change, all did. For AIMD/Vegas/Gradient/Gradient2/Settable/Fixed and a scripted recorder, bare and under Windowed, Traced and Traced(Windowed): "
                    "around every operation the monitor compares EstimatedLimit() before/after, requires every previously registered listener to "
                    "have been called if it changed, requires the last notified value to equal the new estimate, requires the wrapper's estimate "
                    "to equal the delegate's, and requires Traced to forward the sample unchanged. Listeners are registered at random points. "
@@ -115,7 +115,7 @@ CHECKS = {
     "C03": dict(
         pkg="c03", race=False, shards=(4, 16), timeout_s=(300, 2400),
         technique="lock-step reference-model monitor over seeded op sequences + porcupine linearizability check of recorded concurrent histories + quiescence invariant",
-        level_text="Release-window rounds (1500 per case): total at the limit, both partitions at their share; one goroutine releases a token of a while another keeps asking for b until the freed slot can be borrowed and then asks for a - which must be admitted. Sequential: after every acquire/release/SetLimit/add/remove step on both partitioned strategies the grant decision (the iff of the "
+        level_text="Matcher patterns and keys include U+0130 (lower-case form longer in UTF-8). Release-window rounds (1500 per case): total at the limit, both partitions at their share; one goroutine releases a token of a while another keeps asking for b until the freed slot can be borrowed and then asks for a - which must be admitted. Sequential: after every acquire/release/SetLimit/add/remove step on both partitioned strategies the grant decision (the iff of the "
                    "statement), total busy/limit, every bin count and every bin share are compared with an integer-arithmetic reference model "
                    "(dyadic and decimal fractions, zero fractions, unknown/unmatched/empty keys, overlapping predicates, limits set to <=0; lookup partition objects named differently from the key they are registered under, re-adding a registered key "
                    "must be refused; the bundled string matcher in both flavours with patterns in either case). "
@@ -154,7 +154,7 @@ CHECKS = {
     "C20": dict(
         pkg="c20", race=False, shards=(8, 16), timeout_s=(600, 3000),
         technique="recording MetricRegistry + lock-step model of emitted samples/gauges; backend-content and dogstatsd wire-capture monitors; poller life-cycle monitor (goroutine census + poll counters)",
-        level_text="Half of the polled-gauge cases register two of the three gauges after Start (the early gauge's poll count is the clock: 40 more polls without the late ones being polled is a violation). Limiter-path cases: the in-flight sample an instrumented limit emits per window equals the peak at admission incl. dropped requests, drop counter iff the window had a drop; concurrent limiter cases: no in-flight figure above the constant limit. With a recording registry every admission decision of Simple/Precise/Lookup/Predicate strategies must emit exactly the in-flight "
+        level_text="Concurrent life-cycle cases begin with 25 rounds of simultaneous Starts (spin barrier): one poller, Stop returns, none left; forwarded metric ids include ones that begin with the prefix. Half of the polled-gauge cases register two of the three gauges after Start (the early gauge's poll count is the clock: 40 more polls without the late ones being polled is a violation). Limiter-path cases: the in-flight sample an instrumented limit emits per window equals the peak at admission incl. dropped requests, drop counter iff the window had a drop; concurrent limiter cases: no in-flight figure above the constant limit. With a recording registry every admission decision of Simple/Precise/Lookup/Predicate strategies must emit exactly the in-flight "
                    "(bin) count at the decision, gauges must equal the enforced limit/shares after every step, every OnSample of every limit kind must "
                    "emit rtt and in-flight once and the drop counter iff dropped under the prefixed names. The bundled registries are checked through the "
                    "go-metrics registry contents and the captured dogstatsd wire lines (kind suffix, prefixed name, value), the address-based datadog "
@@ -164,7 +164,7 @@ CHECKS = {
                    "Start/Stop/RegisterGauge sequences (sequential and concurrent) with a census of live poller goroutines (1 iff started, never 2, 0 "
                    "after Stop returns), frozen supplier counts while stopped, and a watchdog that classifies a hang as the Stop-vs-tick wait-for cycle "
                    "from the goroutine dump. Exploration.",
-        require=["gauges_registered_after_start", "limiter_path_windows", "concurrent_limiter_inflight_samples", "queue_gauge_dynamic_cases", "strategy_decisions", "partition_decisions", "limit_samples", "limit_drop_samples", "gauge_reads", "forwarded_samples_checked",
+        require=["simultaneous_start_rounds", "gauges_registered_after_start", "limiter_path_windows", "concurrent_limiter_inflight_samples", "queue_gauge_dynamic_cases", "strategy_decisions", "partition_decisions", "limit_samples", "limit_drop_samples", "gauge_reads", "forwarded_samples_checked",
                  "polled_gauge_checks", "forwarded_samples_checked_via_udp", "lifecycle_states_checked", "frozen_poll_count_checks", "live_poll_observations", "lifecycle_cases/gometrics",
                  "lifecycle_cases/datadog", "concurrent_lifecycle_cases", "concurrent_strategy_sample_rounds"],
         rule="case kinds: strategy op sequence (30-80 ops), partitioned strategy op sequence, limit sample sequence (30-90 samples, every limit kind incl. "
@@ -195,7 +195,7 @@ CHECKS = {
     "C10": dict(
         pkg="c10", race=False, shards=(8, 16), timeout_s=(600, 3600),
         technique="quiescence-invariant monitor in a synctest bubble under forced schedules (releases injected at schedule points via instrumented delegate, verif hooks and an actor goroutine)",
-        level_text="Further points: the woken winner's context ends at its wake-up while the losers go back to sleep (blocking / deadline); a release after one more caller was turned away at a backlog that holds exactly its maximum. Every delegate attempt must carry a caller's own context (a hand-off evaluated for another context is evaluated for another caller). Liveness restated as safety at quiescence: after every release, when all goroutines of the bubble are durably blocked and virtual time "
+        level_text="Further points: the second holder completes while the first hand-off is inside the simple strategy (verif point); eviction off, the cancelled next-in-line stays queued, a release whose hand-off the delegate refuses (GateLimiter.RefuseNext), a newcomer takes and completes the unit - the cancelled caller is still served in its turn. Further points: the woken winner's context ends at its wake-up while the losers go back to sleep (blocking / deadline); a release after one more caller was turned away at a backlog that holds exactly its maximum. Every delegate attempt must carry a caller's own context (a hand-off evaluated for another context is evaluated for another caller). Liveness restated as safety at quiescence: after every release, when all goroutines of the bubble are durably blocked and virtual time "
                    "has not moved, 'capacity free and a caller still blocked' is a violation. The release is injected at: before arrival, after the "
                    "caller's 1st/2nd failed delegate attempt, between backlog push and select (verif hooks), when asleep, at the failed retry of a woken "
                    "loser, while unblock hands to a waiter that is being cancelled / timing out at the same instant, and with the broadcast delayed after "
@@ -205,8 +205,8 @@ CHECKS = {
                    "stuck state (no progress for two watchdog periods, capacity free, workers inside Acquire) is a violation. Exploration of forced interleavings, not all schedules.",
         require=["scenarios", "quiescent_snapshots", "scenarios_reaching_their_schedule_point", "snapshots_with_blocked_callers",
                  "reached/after-failed-attempt-1", "reached/queue.after_push", "reached/queue.before_push", "reached/loser-retry",
-                 "reached/handoff-vs-cancel", "reached/handoff-vs-timeout", "reached/next-in-line-cancelled-but-not-evicted", "reached/asleep", "reached/parallel-releases", "reached/slow-inner-release", "reached/helper-before-lock", "reached/winner-cancelled-at-wakeup", "reached/release-after-a-rejection-at-the-full-backlog", "stress_runs", "stress_grants"],
-        rule="scenario grid = limiter kind (7) x release point (12-14) x capacity {1,2} x waiters {1,2,3} x outcome (3); quick runs the grid 3 times, thorough 1500 "
+                 "reached/handoff-vs-cancel", "reached/handoff-vs-timeout", "reached/next-in-line-cancelled-but-not-evicted", "reached/asleep", "reached/parallel-releases", "reached/slow-inner-release", "reached/helper-before-lock", "reached/winner-cancelled-at-wakeup", "reached/release-after-a-rejection-at-the-full-backlog", "reached/second-release-inside-the-strategy", "reached/refused-handoff-with-a-cancelled-head", "stress_runs", "stress_grants"],
+        rule="scenario grid = limiter kind (7) x release point (12-16) x capacity {1,2} x waiters {1,2,3} x outcome (3); quick runs the grid 3 times, thorough 1500 "
              "times with PRNG pause budgets / strategy kind / targeted waiter; non-trivial = schedule point reached and some waiter granted; distinct = distinct scenario tuples.",
         assumptions=COMMON_ASSUME + ["sync.Cond.Wait, channel ops and select are durably blocking in a bubble, sync.Mutex is not (a caller waiting for a mutex counts as running)",
                                      "pauses at schedule points are bounded yields, never waits: they cannot deadlock an implementation that holds a lock across the window"],
@@ -214,7 +214,7 @@ CHECKS = {
     "C11": dict(
         pkg="c11", race=False, shards=(4, 16), timeout_s=(600, 3000),
         technique="grant-order monitor in a synctest bubble: arrival order fixed by quiescence between arrivals, observed grant vs FIFO/LIFO model of still-waiting callers",
-        level_text="A release landing on an arriving caller (verif point before the push): the unit goes to the caller the order designates among the queued ones and the newcomer. Capacity 1 is held; waiters arrive one at a time with synctest.Wait() between arrivals (arrival order is a fact); PRNG interleaves "
+        level_text="Arrivals with an already-done context (eviction on: turned away at once, never part of the line) and with a context deadline that passes while queued (eviction off: the caller keeps its place and is served). A release landing on an arriving caller (verif point before the push): the unit goes to the caller the order designates among the queued ones and the newcomer. Capacity 1 is held; waiters arrive one at a time with synctest.Wait() between arrivals (arrival order is a fact); PRNG interleaves "
                    "arrivals, cancellations (eviction on), staggered time-outs, releases and releases whose hand-off attempt the (injected) delegate "
                    "refuses; after each release exactly one waiter must be granted and it "
                    "must be the oldest (FIFO) / newest (LIFO) still waiting. Releases that coincide with a departure - the holder completes in the same breath as a "
@@ -223,7 +223,7 @@ CHECKS = {
                    "and leaves (cancelled) must be refused, not take the unit. Two-holder rounds (capacity 2, three queued callers): the second holder completes at the instant the first release's "
                    "further hand-off attempt is refused (or right afterwards) - the two units must be held by the first two callers in order. Every constructor: FromConfig{fifo,lifo,default}, WithDefaults, the "
                    "deprecated Fifo/Lifo constructors (+WithDefaults), FixedPool and Pool with OrderingFIFO/LIFO (also with backlog sizes 0 / -1 = default). Exploration over seeded scenarios.",
-        require=["releases_landing_on_an_arriving_caller", "two_holder_rounds", "two_holder_rounds_with_parallel_releases", "departures_while_a_unit_lies_free", "releases_coinciding_with_a_departure", "grants_checked", "grants_with_a_choice", "releases_with_refused_handoff", "scenarios/fifo", "scenarios/lifo", "constructor/WithDefaults",
+        require=["arrivals_with_a_done_context", "arrivals_whose_context_deadline_passes_while_queued", "releases_landing_on_an_arriving_caller", "two_holder_rounds", "two_holder_rounds_with_parallel_releases", "departures_while_a_unit_lies_free", "releases_coinciding_with_a_departure", "grants_checked", "grants_with_a_choice", "releases_with_refused_handoff", "scenarios/fifo", "scenarios/lifo", "constructor/WithDefaults",
                  "constructor/NewLifoBlockingLimiterWithDefaults", "constructor/FixedPool{OrderingLIFO}", "constructor/Pool{OrderingFIFO}"],
         rule="scenario = (constructor (20), 6-20 ops: arrival / cancel / time-out of the oldest / release); non-trivial = at least two grants; distinct = distinct (constructor, trace).",
         assumptions=COMMON_ASSUME + ["a caller whose time-out or cancellation coincides with a release may legitimately still be granted (it was queued when the hand-off happened)"],
@@ -231,7 +231,7 @@ CHECKS = {
     "C13": dict(
         pkg="c13", race=False, shards=(4, 16), timeout_s=(600, 3000),
         technique="exact-instant monitor on a synctest virtual clock: return instant of every blocked Acquire vs its bound, busy count after refusals",
-        level_text="Real-time release-in-progress cases: a caller arriving while another caller's completion is in progress (slow delegate listener) is still bounded by its context / the deadline. For blocking (timeout 0/T), deadline and queue (FIFO/LIFO, eviction on/off) limiters with capacity exhausted and no release, the "
+        level_text="After-a-cancelled-waiter scenarios: a second caller arriving after another caller was cancelled is refused at exactly its own bound; cancel-at-handoff scenarios (queue, eviction on): the call returns at the instant of release and cancellation. Real-time release-in-progress cases: a caller arriving while another caller's completion is in progress (slow delegate listener) is still bounded by its context / the deadline. For blocking (timeout 0/T), deadline and queue (FIFO/LIFO, eviction on/off) limiters with capacity exhausted and no release, the "
                    "blocked call must return refused at exactly its bound (backlog timeout, deadline, cancellation instant; cancellation ignored by the "
                    "queue limiter without eviction) - not earlier, not later - with cancellation placed before / at / after arrival and at / after the "
                    "bound, arrivals before / at / after / less than a millisecond (down to 1 ns) before the deadline; calls for which no bound applies must still be blocked; already-cancelled "
@@ -241,7 +241,7 @@ CHECKS = {
                    "the backlog time-out disabled (negative) are bounded by the context only (eviction on) or not at all; deadline limiters with an 'effectively never' "
                    "deadline (beyond 2262, e.g. now+MaxInt64ns, 9999-12-31) must grant free capacity and keep a call blocked until its context ends or capacity is offered. "
                    "Exploration over a grid x PRNG durations.",
-        require=["release_in_progress_cases", "scenarios", "exact_return_instants_checked", "refused_calls_hold_nothing_checks", "calls_correctly_still_blocked",
+        require=["after_cancelled_waiter_scenarios", "cancel_at_handoff_scenarios", "release_in_progress_cases", "scenarios", "exact_return_instants_checked", "refused_calls_hold_nothing_checks", "calls_correctly_still_blocked",
                  "calls_exactly_at_the_deadline", "family/queue", "family/deadline", "family/blocking", "contexts_ending_by_their_own_deadline", "two_waiter_scenarios", "slow_delegate_scenarios", "far_deadline_scenarios"],
         rule="grid = limiter kind (9) x cancel placement (6) x arrival placement (3, deadline only) x capacity exhausted/free, each with PRNG timeout "
              "(1ms-1h), arrival and cancel instants; quick 20 per cell, thorough 5000; all cases non-trivial; distinct = distinct (cell, instants).",
@@ -263,7 +263,7 @@ CHECKS = {
     "C19": dict(
         pkg="c19", race=False, shards=(6, 16), timeout_s=(600, 3000),
         technique="holder-bracket monitor + every-caller-granted-within-timeout monitor on a synctest virtual clock; real-time stress with stuck-state classification",
-        level_text="One configuration in five has a backlog of 11-24 (larger than the smallest sample window). Two-releases / two-parked cases over the simple strategy: the second holder completes while the first hand-off is inside the strategy (verif point) - both parked callers are served. FixedPool and Pool x {random, FIFO, LIFO}, limit 1-4, callers = limit+1..limit+backlog with PRNG arrival instants (also all "
+        level_text="Generic random pools are also hit right after the caller's first / second refused delegate attempt (instrumented delegate); after every stress run the pool must hand out its full limit again. One configuration in five has a backlog of 11-24 (larger than the smallest sample window). Two-releases / two-parked cases over the simple strategy: the second holder completes while the first hand-off is inside the strategy (verif point) - both parked callers are served. FixedPool and Pool x {random, FIFO, LIFO}, limit 1-4, callers = limit+1..limit+backlog with PRNG arrival instants (also all "
                    "simultaneous) and hold times (also zero), a quarter of the callers cancelling their context while possibly queued, time-out above the "
                    "longest possible wait (random pools: poll period 0 / 7 ms / long): a harness bracket counter (a lower bound of the true "
                    "holders) must never exceed the limit, every caller that did not cancel must be granted (queue pools: within the time-out of its arrival, exact "
@@ -272,7 +272,7 @@ CHECKS = {
                    "all units held again, one more caller must queue and be served by the next release. "
                    "A real-time stress tier (zero hold, 300 iterations per caller, time-out 1h) must finish without refusals; a run that stops progressing "
                    "with capacity free is classified as stuck (violation), anything else as inconclusive. Exploration.",
-        require=["two_releases_two_parked_cases", "release_at_point_cases/queue.before_push", "release_at_point_cases/blocking.helper_before_lock", "second_phase_probes", "virtual_scenarios_with_more_callers_than_limit_plus_backlog", "virtual_scenarios", "virtual_callers_that_had_to_wait", "virtual_scenarios_reaching_the_limit", "virtual_callers_cancelling_while_queued", "virtual_scenarios_with_colliding_timeouts", "stress_runs", "stress_grants"],
+        require=["stress_full_limit_probes", "two_releases_two_parked_cases", "release_at_point_cases/queue.before_push", "release_at_point_cases/blocking.helper_before_lock", "second_phase_probes", "virtual_scenarios_with_more_callers_than_limit_plus_backlog", "virtual_scenarios", "virtual_callers_that_had_to_wait", "virtual_scenarios_reaching_the_limit", "virtual_callers_cancelling_while_queued", "virtual_scenarios_with_colliding_timeouts", "stress_runs", "stress_grants"],
         rule="virtual scenario = (pool kind, ordering, limit, backlog, callers, per-caller arrival/hold/outcome); stress = (same config, real time); "
              "non-trivial = at least one caller had to wait; distinct = distinct (config, first caller).",
         assumptions=COMMON_ASSUME + ["the bracket counter is incremented after Acquire returned and decremented before completion, so it never over-counts holders"],
@@ -280,14 +280,14 @@ CHECKS = {
     "C02": dict(
         pkg="c02", race=False, shards=(8, 16), timeout_s=(600, 3600),
         technique="conservation monitor: per-layer counts vs harness token ledger after every step / at every quiescent point (synctest), exactly-once accounting of delegate tokens, re-admission of the full limit",
-        level_text="Half of the predicate stacks carry a catch-all partition registered last (overlapping predicates: only the first matching bin is charged). Sequential cases change the strategy's limit (also below what is outstanding) - nothing granted is written off. Shared-context cases: 2-4 callers queued with one and the same context value, the oldest times out, the holder completes - every caller is an individual. (A') 150 rounds per case in which one holder completes while another caller is being admitted (a user metric registry yields inside the strategy's sample emission): at rest strategy count and limiter gauge equal the tokens outstanding. (A) DefaultLimiter over Simple/Precise/Lookup/Predicate, sequential random acquire/complete with all outcomes: strategy busy, bin "
+        level_text="Last-completion cases: the only holder of a queue limiter completes while a newcomer is between re-check and push / push and select (verif points) - afterwards nothing is left behind. Half of the predicate stacks carry a catch-all partition registered last (overlapping predicates: only the first matching bin is charged). Sequential cases change the strategy's limit (also below what is outstanding) - nothing granted is written off. Shared-context cases: 2-4 callers queued with one and the same context value, the oldest times out, the holder completes - every caller is an individual. (A') 150 rounds per case in which one holder completes while another caller is being admitted (a user metric registry yields inside the strategy's sample emission): at rest strategy count and limiter gauge equal the tokens outstanding. (A) DefaultLimiter over Simple/Precise/Lookup/Predicate, sequential random acquire/complete with all outcomes: strategy busy, bin "
                    "busy and the limiter's in-flight gauge equal the harness's outstanding tokens after every step. (B) blocking / deadline / queue stacks in a "
                    "synctest bubble with arrivals, bursts, releases, cancellations, time advances across time-outs and releases placed at the very "
                    "instant of a bound, optional yields in the push/hand-off windows: at every quiescent point busy = gauge = outstanding delegate tokens = "
                    "granted - completed, listener!=nil iff ok, no delegate token completed twice; after teardown all zero, backlog empty, exactly the limit "
                    "re-admitted. (C) real-time stress (8-16 goroutines, random cancels, 1-3 ms time-outs) with the same end-state checks. (D) pools "
                    "behaviourally. Exploration.",
-        require=["limit_lowered_below_outstanding_tokens", "shared_context_cases", "gauge_at_rest_checks", "sequential_layer_checks", "completions/success", "completions/ignore", "completions/dropped", "bubble_scenarios/blocking",
+        require=["last_completion_at_push_cases", "limit_lowered_below_outstanding_tokens", "shared_context_cases", "gauge_at_rest_checks", "sequential_layer_checks", "completions/success", "completions/ignore", "completions/dropped", "bubble_scenarios/blocking",
                  "bubble_scenarios/deadline", "bubble_scenarios/queue", "quiescent_checks", "give_up_events_injected",
                  "releases_at_the_instant_of_a_bound", "bubble_scenarios_with_slow_delegate", "unknown_bin_conservation_probes", "partition_removed_with_tokens_outstanding", "stress_grants", "stress_refusals", "pool_cases"],
         rule="cases: sequential stack (40-120 ops), bubble scenario (8-32 ops on a PRNG limiter kind/capacity/time-out), pool churn, stress run; non-trivial = "
@@ -297,7 +297,7 @@ CHECKS = {
     "C05": dict(
         pkg="c05", race=False, shards=(4, 16), timeout_s=(600, 3000),
         technique="recording limit (scripted or wrapping a real algorithm) + equality monitor on the strategy's enforced limit and partition shares after construction and after every sample-driven update (synctest clock closes windows deterministically)",
-        level_text="One lookup stack in five has no named partition left (removed after construction): updates still reach the strategy. One case in four builds the strategy with the very number the algorithm starts from (also 0 / negative); one case in twenty goes through NewDefaultLimiterWithDefaults with a strategy built with another number. One case in six uses an algorithm whose estimate is changed from outside between windows (SettableLimit) - after the next completed window enforcement must follow. DefaultLimiter over Simple/Precise/Lookup/Predicate with a recording core.Limit whose estimate trajectory contains 0, negative, "
+        level_text="The pollers of the concurrent variant also call the partition objects' own accessors (Limit, BusyCount, IsLimitExceeded, String). One lookup stack in five has no named partition left (removed after construction): updates still reach the strategy. One case in four builds the strategy with the very number the algorithm starts from (also 0 / negative); one case in twenty goes through NewDefaultLimiterWithDefaults with a strategy built with another number. One case in six uses an algorithm whose estimate is changed from outside between windows (SettableLimit) - after the next completed window enforcement must follow. DefaultLimiter over Simple/Precise/Lookup/Predicate with a recording core.Limit whose estimate trajectory contains 0, negative, "
                    "repeated and large values (or a real AIMD/Vegas/Gradient2 underneath): right after construction and after every completion during which "
                    "the recorder received an OnSample, the strategy's limit must equal max(1, the estimate the recorder returned) and every partition "
                    "share max(1, ceil(limit x fraction)) of that same value; the lookup strategy's unknown bucket is probed behaviourally. A concurrent "
